@@ -1,7 +1,31 @@
 """C04 — emitted DirectX HLSL is accepted by the front end and is a fixpoint."""
 import os
+import subprocess
 
 T = "RsslVerif.Thm.C04."
+
+# The legs of the composition are the property theorems of other properties.  Their obligations are obligations of C04
+# as well: if one of them no longer checks (a table can not be re-extracted, a theorem stops type-checking), C04 reports a
+# broken obligation and starts its own witness search (`search` below), whose inputs exercise exactly that leg.
+LEG_GENS = ["LexTables",                      # C10: literal_int / literal_float / digit tables of preprocess/src/lexer.rs
+            "FmtTables", "ParseTables",       # C09: printer precedence / spelling tables, parser levels
+            "Reserved"]                       # C15: reserved words of the HLSL name generator
+LEG_MODULES = ["RsslVerif.Thm.C10", "RsslVerif.Thm.C09", "RsslVerif.Thm.C15"]
+LEG_THEOREMS = (
+    # literals re-read exactly (C10): the shape of calculate_float64_from_parts is the modelled one, the value is the
+    # nearest double / float of the digits, integers are exact or rejected
+    ["RsslVerif.Thm.C10." + n for n in [
+        "float_parts_shape_as_modelled", "lex_float_nearest", "nearest64_correct", "nearest64_total", "nearest_correct",
+        "nearest_exact_on_representable", "int_value_exact", "int_overflow_rejected", "literalInt_radix",
+        "token_numeric_dispatch"]] +
+    # printing and parsing are inverse (C09)
+    ["RsslVerif.Thm.C09." + n for n in [
+        "tables_agree", "assoc_agrees", "ternary_level", "unary_tables_agree", "paren_rule_matches_grammar",
+        "glue_prefix_prefix", "glue_postfix_next", "roundtrip_expr_partial", "roundtrip_subexpr_partial",
+        "roundtrip_comma_positions_partial", "literal_roundtrip_partial", "decimal_roundtrip"]] +
+    # first-generation names are unique and unreserved, so the second name generation keeps them (C15)
+    ["RsslVerif.Thm.C15." + n for n in [
+        "reserved_complete", "never_reserved", "injective_per_scope", "verbatim", "locals_apart_from_used"]])
 
 
 def custom(ctx):
@@ -20,6 +44,73 @@ def custom(ctx):
                                      "in their own checks")
 
 
+def _harness_exe():
+    import vlib
+    return vlib.HARNESS_EXE
+
+
+def _source_of(ident):
+    if ident.startswith("text:"):
+        try:
+            return bytes.fromhex(ident[5:]).decode("utf-8", "replace")
+        except ValueError:
+            return None
+    if ident.startswith(("lit:", "gen:", "decl:")):
+        try:
+            r = subprocess.run([_harness_exe(), "c04", "source", ident], capture_output=True, text=True, timeout=60)
+        except Exception:
+            return None
+        return "\n".join(l for l in r.stdout.split("\n") if not l.startswith("WARNING conda"))
+    return None
+
+
+def shrink(req):
+    """drop one source line at a time (a candidate the front end rejects is not a failure and is discarded by vlib)"""
+    f = req.split("\t")
+    if len(f) < 2 or f[0] != "C04.fix":
+        return
+    src = _source_of(f[1])
+    if not src:
+        return
+    lines = src.split("\n")
+    if f[1][:5] != "text:":
+        # the same program as an explicit text request (so that the replay file carries the source itself)
+        yield "C04.fix\ttext:" + src.encode().hex()
+    for i in range(len(lines)):
+        if lines[i].strip() in ("", "{", "}"):
+            continue
+        cand = "\n".join(lines[:i] + lines[i + 1:])
+        yield "C04.fix\ttext:" + cand.encode().hex()
+
+
+def search(ctx):
+    """inputs tried on the real compiler when an obligation (own or of a cited leg) no longer checks: programs built
+    around what each leg guarantees — literals of every suffix and length (C10), operator nestings whose printed form
+    depends on the precedence tables (C09), names that collide with reserved words or with each other (C15), and
+    conversions of every kind (C03)"""
+    out = []
+    try:
+        r = subprocess.run([_harness_exe(), "c04", "search-requests"], capture_output=True, text=True, timeout=60)
+        out += [l for l in r.stdout.split("\n") if l.startswith("C04.fix\t")]
+    except Exception:
+        pass
+    for src in SEARCH_SOURCES:
+        out.append("C04.fix\ttext:" + src.encode().hex())
+    # and a slice of the literal stream with other seeds
+    out += ["C04.fix\tlit:%d" % (1000003 * k + ctx.seed) for k in range(1, 120)]
+    return out
+
+
+SEARCH_SOURCES = [
+    "int f(int a, int b, bool c) { int r = (a, b); r = c ? a : (b = 3); r = -(-a) - -a + +(+a); return a - (b - 1) - (a / (b | 1)) * 2 % 5; }\n",
+    "bool f(int a, uint b) { return a < b || (a == -1 && b != 0u) == !(a > 0); }\nuint g(uint a, int s) { a <<= s; a >>= 1; a = a >> (uint)s << 1; return a; }\n",
+    "int k(int a) { return 1; }\nint k(float a) { return 2; }\nint k(uint a, uint b) { return 3; }\n"
+    "void f(bool t, uint u, int i, float x) { int w = k(t + 1); w = k(u, 1); w = k(x); uint v = t ? 1 : 2; const int ci = 3; float ff = ci + 1.5; }\n",
+    "struct S { int line; float sample; };\nstatic int point;\nint triangle(int discard_) { int in_ = discard_; int out_ = in_ + point; return out_; }\n",
+    "void f(bool t, uint u, int i, float x) { float y = -1.5f; int j = -3; uint v = ~0u; bool c = !i; int n = ~t; y = -x; j = -(-3); y = t ? 1 : 2.5; y = i ? x : 1; u = u << 1; i = i >> t; }\n",
+]
+
+
 def nontrivial(req, obs):
     return obs.startswith("ok:")
 
@@ -35,13 +126,15 @@ def finding_key(req, obs, detail):
 
 SPEC = {
     "id": "C04",
-    "gens": ["SlotTables"],
-    "lean_modules": ["RsslVerif.Thm.C04"],
-    "theorems": [T + "slots_stable", T + "run_explicit", T + "step_explicit"],
+    "gens": ["SlotTables"] + LEG_GENS,
+    "lean_modules": ["RsslVerif.Thm.C04"] + LEG_MODULES,
+    "theorems": [T + "slots_stable", T + "run_explicit", T + "step_explicit"] + LEG_THEOREMS,
     "harness": "c04",
     "custom": custom,
     "nontrivial": nontrivial,
     "finding_key": finding_key,
+    "shrink": shrink,
+    "search": search,
     "rule": "programs = type-directed generated sources using every declaration kind (enum, struct with method, static/"
             "groupshared globals, cbuffer with register, resources of 16 object types with register/space annotations and "
             "bind-group attributes, arrays, function template, namespace, overloads, default / out / inout parameters, every "
